@@ -135,7 +135,7 @@ Theorem hj_no_deadlock nb n s :
 Proof. apply hj_no_deadlock_with_limit. Qed.
 
 (* helpers to build witness runs backwards *)
-Definition mk (bp : list bph) br hr ri ps sr dr rm : hst :=
+Definition hmk (bp : list bph) br hr ri ps sr dr rm : hst :=
   {| bps := bp; bremaining := br; hready := hr; rem_ins := ri; hps := ps; sready := sr; dready := dr; rem_prob := rm |}.
 
 (* ---------- REFUTED: the variant WITHOUT pending_drainers.wake_all() at build completion ---------- *)
@@ -144,25 +144,25 @@ Definition mk (bp : list bph) br hr ri ps sr dr rm : hst :=
    because scan_ready is still false.  Then the build side completes and wakes only the probers.
    Result: the prober is parked although drain_ready && scan_ready holds, every other agent is done,
    and the only enabled transition is a poll of the parked partition itself, which nobody triggers. *)
-Definition hj_lost_wakeup_state : hst := mk [BDone] 0 true 0 [HParkedDrain] true true 0.
+Definition hj_lost_wakeup_state : hst := hmk [BDone] 0 true 0 [HParkedDrain] true true 0.
 
 Theorem hj_lost_wakeup_without_drainer_wake_refuted :
   hreach false false false 1 1 hj_lost_wakeup_state /\
   count is_hpdrain (hps hj_lost_wakeup_state) = 1 /\
   dready hj_lost_wakeup_state && sready hj_lost_wakeup_state = true /\
   count is_bdone (bps hj_lost_wakeup_state) = length (bps hj_lost_wakeup_state) /\
-  forall s', hstep false false false hj_lost_wakeup_state s' -> s' = mk [BDone] 0 true 0 [HDraining] true true 0.
+  forall s', hstep false false false hj_lost_wakeup_state s' -> s' = hmk [BDone] 0 true 0 [HDraining] true true 0.
 Proof.
   split; [|split; [reflexivity|split; [reflexivity|split; [reflexivity|]]]].
   - unfold hj_lost_wakeup_state.
-    eapply hr_step; [|apply (b_proc_done_last false false false 0 (mk [BProc] 0 true 1 [HParkedDrain] false true 0)); reflexivity].
-    eapply hr_step; [|apply (b_ins_ready false false false 0 BIns (mk [BIns] 0 true 1 [HParkedDrain] false true 0)); reflexivity].
-    eapply hr_step; [|apply (b_last_lock false false false 0 (mk [BMid true] 0 false 1 [HParkedDrain] false true 0)); reflexivity].
-    eapply hr_step; [|apply (b_fetch_sub false false false 0 (mk [BColl] 1 false 1 [HParkedDrain] false true 0)); [reflexivity|cbn; lia]].
-    eapply hr_step; [|apply (h_drain_park false false false 0 HDrainChk (mk [BColl] 1 false 1 [HDrainChk] false true 0)); reflexivity].
-    eapply hr_step; [|apply (h_finalize_last false false false 0 HProbe (mk [BColl] 1 false 1 [HProbe] false false 1)); reflexivity].
+    eapply hr_step; [|apply (b_proc_done_last false false false 0 (hmk [BProc] 0 true 1 [HParkedDrain] false true 0)); reflexivity].
+    eapply hr_step; [|apply (b_ins_ready false false false 0 BIns (hmk [BIns] 0 true 1 [HParkedDrain] false true 0)); reflexivity].
+    eapply hr_step; [|apply (b_last_lock false false false 0 (hmk [BMid true] 0 false 1 [HParkedDrain] false true 0)); reflexivity].
+    eapply hr_step; [|apply (b_fetch_sub false false false 0 (hmk [BColl] 1 false 1 [HParkedDrain] false true 0)); [reflexivity|cbn; lia]].
+    eapply hr_step; [|apply (h_drain_park false false false 0 HDrainChk (hmk [BColl] 1 false 1 [HDrainChk] false true 0)); reflexivity].
+    eapply hr_step; [|apply (h_finalize_last false false false 0 HProbe (hmk [BColl] 1 false 1 [HProbe] false false 1)); reflexivity].
     apply hr_init.
-  - intros s' Hs. unfold hj_lost_wakeup_state, mk in *.
+  - intros s' Hs. unfold hj_lost_wakeup_state, hmk in *.
     inversion Hs as [i s H Hr | i s H Hr | i s H | i s H Hr | i s H Hr | i p s H Hp Hr | i p s H Hp Hr
                  | i s H Hr | i s H Hr | i s H Hr
                  | i p s H Hp Hsr | i p s H Hp Hsr | i p s H Hp Hr | i p s H Hp Hr | i p s H Hp Hr
@@ -175,7 +175,7 @@ Qed.
 
 (* ---------- PREVIOUS stack versions (lose = true): a lost abandon deadlocks the drain barrier.
    Before 131551599: any LIMIT above the join; before c83fc4e4d: two exhausting operators. ---------- *)
-Definition hj_deadlock_state : hst := mk [BDone] 0 true 0 [HLost; HParkedDrain] true false 1.
+Definition hj_deadlock_state : hst := hmk [BDone] 0 true 0 [HLost; HParkedDrain] true false 1.
 
 Theorem hj_drain_deadlock_when_abandon_lost_refuted :
   hreach true true true 1 2 hj_deadlock_state /\ ~ hall_done hj_deadlock_state /\
@@ -183,19 +183,19 @@ Theorem hj_drain_deadlock_when_abandon_lost_refuted :
 Proof.
   split; [|split].
   - unfold hj_deadlock_state.
-    eapply hr_step; [|apply (h_drain_park true true true 1 HDrainChk (mk [BDone] 0 true 0 [HLost; HDrainChk] true false 1)); reflexivity].
-    eapply hr_step; [|apply (h_finalize true true true 1 HScan (mk [BDone] 0 true 0 [HLost; HScan] true false 2)); [reflexivity|reflexivity|cbn; lia]].
-    eapply hr_step; [|apply (h_abandon_lost true true true 0 (mk [BDone] 0 true 0 [HAbandoning; HScan] true false 2)); reflexivity].
-    eapply hr_step; [|apply (h_abandon true true true 0 (mk [BDone] 0 true 0 [HScan; HScan] true false 2)); reflexivity].
-    eapply hr_step; [|apply (h_scan_ready true true true 1 HProbe (mk [BDone] 0 true 0 [HScan; HProbe] true false 2)); reflexivity].
-    eapply hr_step; [|apply (h_scan_ready true true true 0 HProbe (mk [BDone] 0 true 0 [HProbe; HProbe] true false 2)); reflexivity].
-    eapply hr_step; [|apply (b_proc_done_last true true true 0 (mk [BProc] 0 true 1 [HProbe; HProbe] false false 2)); reflexivity].
-    eapply hr_step; [|apply (b_ins_ready true true true 0 BIns (mk [BIns] 0 true 1 [HProbe; HProbe] false false 2)); reflexivity].
-    eapply hr_step; [|apply (b_last_lock true true true 0 (mk [BMid true] 0 false 1 [HProbe; HProbe] false false 2)); reflexivity].
-    eapply hr_step; [|apply (b_fetch_sub true true true 0 (mk [BColl] 1 false 1 [HProbe; HProbe] false false 2)); [reflexivity|cbn; lia]].
+    eapply hr_step; [|apply (h_drain_park true true true 1 HDrainChk (hmk [BDone] 0 true 0 [HLost; HDrainChk] true false 1)); reflexivity].
+    eapply hr_step; [|apply (h_finalize true true true 1 HScan (hmk [BDone] 0 true 0 [HLost; HScan] true false 2)); [reflexivity|reflexivity|cbn; lia]].
+    eapply hr_step; [|apply (h_abandon_lost true true true 0 (hmk [BDone] 0 true 0 [HAbandoning; HScan] true false 2)); reflexivity].
+    eapply hr_step; [|apply (h_abandon true true true 0 (hmk [BDone] 0 true 0 [HScan; HScan] true false 2)); reflexivity].
+    eapply hr_step; [|apply (h_scan_ready true true true 1 HProbe (hmk [BDone] 0 true 0 [HScan; HProbe] true false 2)); reflexivity].
+    eapply hr_step; [|apply (h_scan_ready true true true 0 HProbe (hmk [BDone] 0 true 0 [HProbe; HProbe] true false 2)); reflexivity].
+    eapply hr_step; [|apply (b_proc_done_last true true true 0 (hmk [BProc] 0 true 1 [HProbe; HProbe] false false 2)); reflexivity].
+    eapply hr_step; [|apply (b_ins_ready true true true 0 BIns (hmk [BIns] 0 true 1 [HProbe; HProbe] false false 2)); reflexivity].
+    eapply hr_step; [|apply (b_last_lock true true true 0 (hmk [BMid true] 0 false 1 [HProbe; HProbe] false false 2)); reflexivity].
+    eapply hr_step; [|apply (b_fetch_sub true true true 0 (hmk [BColl] 1 false 1 [HProbe; HProbe] false false 2)); [reflexivity|cbn; lia]].
     apply hr_init.
   - unfold hall_done, hj_deadlock_state. cbn. lia.
-  - intros s' Hs. unfold hj_deadlock_state, mk in *.
+  - intros s' Hs. unfold hj_deadlock_state, hmk in *.
     inversion Hs as [i s H Hr | i s H Hr | i s H | i s H Hr | i s H Hr | i p s H Hp Hr | i p s H Hp Hr
                  | i s H Hr | i s H Hr | i s H Hr
                  | i p s H Hp Hsr | i p s H Hp Hsr | i p s H Hp Hr | i p s H Hp Hr | i p s H Hp Hr
@@ -210,15 +210,15 @@ Qed.
    completes and is released by the last inserter's wake of pending_drainers *)
 Example hj_run_example : exists s, hreach false false true 1 1 s /\ hall_done s.
 Proof.
-  exists (mk [BDone] 0 true 0 [HDone] true true 0). split; [|split; reflexivity].
-  eapply hr_step; [|apply (h_drain_done false false true 0 (mk [BDone] 0 true 0 [HDraining] true true 0)); reflexivity].
-  eapply hr_step; [|apply (h_drain_ready false false true 0 HDrainChk (mk [BDone] 0 true 0 [HDrainChk] true true 0)); reflexivity].
-  eapply hr_step; [|apply (b_proc_done_last false false true 0 (mk [BProc] 0 true 1 [HParkedDrain] false true 0)); reflexivity].
-  eapply hr_step; [|apply (b_ins_ready false false true 0 BIns (mk [BIns] 0 true 1 [HParkedDrain] false true 0)); reflexivity].
-  eapply hr_step; [|apply (b_last_lock false false true 0 (mk [BMid true] 0 false 1 [HParkedDrain] false true 0)); reflexivity].
-  eapply hr_step; [|apply (b_fetch_sub false false true 0 (mk [BColl] 1 false 1 [HParkedDrain] false true 0)); [reflexivity|cbn; lia]].
-  eapply hr_step; [|apply (h_drain_park false false true 0 HDrainChk (mk [BColl] 1 false 1 [HDrainChk] false true 0)); reflexivity].
-  eapply hr_step; [|apply (h_finalize_last false false true 0 HProbe (mk [BColl] 1 false 1 [HProbe] false false 1)); reflexivity].
+  exists (hmk [BDone] 0 true 0 [HDone] true true 0). split; [|split; reflexivity].
+  eapply hr_step; [|apply (h_drain_done false false true 0 (hmk [BDone] 0 true 0 [HDraining] true true 0)); reflexivity].
+  eapply hr_step; [|apply (h_drain_ready false false true 0 HDrainChk (hmk [BDone] 0 true 0 [HDrainChk] true true 0)); reflexivity].
+  eapply hr_step; [|apply (b_proc_done_last false false true 0 (hmk [BProc] 0 true 1 [HParkedDrain] false true 0)); reflexivity].
+  eapply hr_step; [|apply (b_ins_ready false false true 0 BIns (hmk [BIns] 0 true 1 [HParkedDrain] false true 0)); reflexivity].
+  eapply hr_step; [|apply (b_last_lock false false true 0 (hmk [BMid true] 0 false 1 [HParkedDrain] false true 0)); reflexivity].
+  eapply hr_step; [|apply (b_fetch_sub false false true 0 (hmk [BColl] 1 false 1 [HParkedDrain] false true 0)); [reflexivity|cbn; lia]].
+  eapply hr_step; [|apply (h_drain_park false false true 0 HDrainChk (hmk [BColl] 1 false 1 [HDrainChk] false true 0)); reflexivity].
+  eapply hr_step; [|apply (h_finalize_last false false true 0 HProbe (hmk [BColl] 1 false 1 [HProbe] false false 1)); reflexivity].
   apply hr_init.
 Qed.
 
